@@ -53,6 +53,7 @@ EditAct(e) ==
       [] e.a = "modpoly" -> ModifyPoly(e.arg[1], e.arg[2])
       [] e.a = "invpoly" -> InvertPoly(e.arg[1])
       [] e.a = "toginvalid" -> ToggleInvalid
+      [] e.a = "addfeature" -> AddFeature
       [] e.a = "togenable" -> ToggleEnable
       [] e.a = "setlimit" -> SetLimit(e.arg[1])
       [] e.a = "manual" -> EditManual(e.arg[1])
